@@ -107,6 +107,49 @@ NEXT Next
 """
 
 
+# exec by tasks other than the launched one (and re-exec by the main process): fork / vfork children and
+# secondary threads exec the image again (op Z); the new image makes marker calls and exits with a code
+MC_EXEC = """CONSTANTS
+  MainAlpha = {"F","V","W","T","Z"}
+  ChildAlpha = {"Z","T","X3"}
+  MaxMain = 2
+  MaxChild = %d
+  MaxSpawn = 1
+  MaxT = 2
+  MaxTotal = 4
+  EsrchFatal = FALSE
+  ChildSigsysIgnored = FALSE
+  AnyDecision = FALSE
+  ClenPanics = FALSE
+  Noise = %s
+SPECIFICATION Spec
+VIEW MCView
+INVARIANTS TypeOK Enforced TruthfulResult FinishedAllDead NeverRunnerError
+CHECK_DEADLOCK TRUE
+"""
+EXEC_GEN = """CONSTANTS
+  MainAlpha = {"F","V","C","W","T","Z","X3"}
+  ChildAlpha = {"Z","T","X3"}
+  MaxMain = 3
+  MaxChild = 3
+  MaxSpawn = 1
+  MaxT = 2
+  MaxTotal = 5
+INIT Init
+NEXT Next
+"""
+EXEC_PINNED = {"ZT", "ZTX", "FW/ZT", "VW/ZT", "CW/ZT", "FW/ZTX", "VW/ZTX", "CW/ZTX", "FWT/ZT", "VT/ZT"}
+
+
+def has_thread_exec(c):
+    """a task created with C that execs: not modelled at the implementation layer (pid take-over)"""
+    for tk in c.get("script") or []:
+        for o in tk:
+            if o["k"] == "C" and any(x["k"] == "Z" for x in c["script"][o["n"] - 1]):
+                return True
+    return False
+
+
 # programs that SIGKILL one of their own child processes while it is being handled (tracer delayed
 # at its verifPoint so that the window is hit); same property machine
 RACE_GEN = """CONSTANTS
@@ -186,6 +229,11 @@ def build_cases(ctx, t):
         raise vlib.Inconclusive("Tracer.tla (decisions by occurrence) violates %s:\n%s" % (rh.invariant or "deadlock-freedom", rh.tail(60)))
     ctx.tlc_ok("Tracer MC, decisions by occurrence", rh)
     ctx.cov["mc_states_history"] = rh.distinct
+    rx = ctx.tlc("Tracer", cfg=MC_EXEC % ((3, "TRUE") if t else (2, "FALSE")), workers=4, timeout=ctx.pick(400, 1500))
+    if rx.invariant or rx.deadlock:
+        raise vlib.Inconclusive("Tracer.tla (exec) violates %s:\n%s" % (rx.invariant or "deadlock-freedom", rx.tail(60)))
+    ctx.tlc_ok("Tracer MC, exec by children", rx)
+    ctx.cov["mc_states_exec"] = rx.distinct
     if t:
         lv = ctx.tlc("Tracer", cfg=MC_LIVE, workers=4, timeout=900)
         ctx.tlc_ok("Tracer liveness (Terminates under fairness)", lv)
@@ -237,6 +285,19 @@ def build_cases(ctx, t):
         ctx.rng.shuffle(rest)
         hc = small + rest[:600]
     cases += hc
+    # exec by children / threads / the main process
+    eg = ctx.tlc("Tracer_Gen", cfg=EXEC_GEN, timeout=900, count=False)
+    ctx.tlc_ok("Tracer_Gen (exec)", eg)
+    ec = [c for c in ctx.read_ndjson(os.path.join(eg.dir, "cases.ndjson"))
+          if isinstance(c["dec"], dict) and any(o["k"] == "Z" for tk in c["script"] for o in tk)]
+    ec.sort(key=lambda c: json.dumps(c, sort_keys=True))
+    total_cases += len(ec)
+    pin = [c for c in ec if kinds_of(c) in EXEC_PINNED]
+    rest = [c for c in ec if c not in pin]
+    ctx.rng.shuffle(rest)
+    if not t:
+        pin = [c for c in pin if len(set(d for p in c["dec"].values() for d in p)) == 1 or kinds_of(c) in ("FW/ZT", "CW/ZT")]
+    cases += pin + rest[:ctx.pick(12, 400)]
     return cases, total_cases
 
 
@@ -292,11 +353,13 @@ def run(ctx):
             [(x["m"], x["act"]) for x in o["traps"]],
             [[(e["op"], e["ret"]) for e in lg] for lg in o["logs"]]), case)
     # ---- 5. implementation layer
-    it = ctx.tlc("Tracer_Trace", files={"obs.ndjson": pobs}, timeout=ctx.pick(400, 1500), heap="8g")
+    iobs = [o for o in obs if not has_thread_exec(o)]
+    ctx.cov["thread_exec_runs_property_layer_only"] = len(obs) - len(iobs)
+    it = ctx.tlc("Tracer_Trace", files={"obs.ndjson": prep_obs(iobs)}, timeout=ctx.pick(400, 1500), heap="8g")
     ctx.tlc_ok("Tracer_Trace", it)
     drift = ctx.read_ndjson(os.path.join(it.dir, "drift.ndjson"))
     for d in drift[:5]:
-        o = obs[d["t"] - 1]
+        o = iobs[d["t"] - 1]
         evs = [e for e in o["events"] if e["ev"] != "start"]
         e = evs[d["matched"]] if d["matched"] < len(evs) else {}
         ctx.sample(tc.slim(o, keep_events=True), limit=8)
